@@ -11,12 +11,12 @@
 (* every request the API received (RequestOK).                             *)
 (***************************************************************************)
 EXTENDS Naturals, Sequences, FiniteSets, TLC, Json
-Carriers == {"hdr", "basic", "ovq", "ovh", "ovc", "ovp", "prov"}
+Carriers == {"hdr", "basic", "ovq", "ovh", "ovc", "ovp", "prov", "key"}
 Ops == {1, 2, 3}              \* 1 = POST /items (link source), 2 = GET /items/{id} (declares the parameters), 3 = GET /plain
 Phases == {"examples", "coverage", "fuzzing", "stateful", "linked"}
 Declared == {"none", "optional", "required"}
 (* where a configured carrier applies *)
-Applies(c, op, decl) == CASE c \in {"hdr", "basic", "prov"} -> TRUE
+Applies(c, op, decl) == CASE c \in {"hdr", "basic", "prov", "key"} -> TRUE
                           [] c = "ovp" -> op = 2
                           [] OTHER -> op = 2 /\ decl # "none"
 VARIABLES cfg, req
@@ -27,6 +27,9 @@ Init == /\ cfg \in [carriers : SUBSET Carriers, declared : Declared, workers : {
         \* explicit --auth deliberately unregisters a GLOBAL auth provider (Engine.execute); that choice between two user
         \* layers is outside the property (no order among user layers), so the combination is not part of the family
         /\ ~("basic" \in cfg.carriers /\ "prov" \in cfg.carriers /\ cfg.scope = "global")
+        \* the apiKey credential + ignored_auth probes are combined with the plain network header and overrides only (another
+        \* explicit auth layer changes what the check treats as "the" credential)
+        /\ ("key" \in cfg.carriers => ~("basic" \in cfg.carriers) /\ ~("prov" \in cfg.carriers))
         /\ req = NoReq
 (* source of the value found at carrier c of the assembled request *)
 Source(c, op, ph) == IF c \in cfg.carriers /\ Applies(c, op, cfg.declared) THEN "user"
